@@ -829,3 +829,19 @@ def bound_args(call, callee, skip_self=True):
         if k.arg is not None:
             out[k.arg] = k.value
     return out
+
+
+def split_assign(st):
+    """(target, value) pairs of an assignment; `a, b = x, y` is split element-wise"""
+    out = []
+    if not isinstance(st, ast.Assign):
+        return out
+    for t in st.targets:
+        if isinstance(t, (ast.Tuple, ast.List)) and isinstance(st.value, (ast.Tuple, ast.List)) \
+                and len(t.elts) == len(st.value.elts):
+            out.extend(zip(t.elts, st.value.elts))
+        elif isinstance(t, (ast.Tuple, ast.List)):
+            out.extend((e, st.value) for e in t.elts)
+        else:
+            out.append((t, st.value))
+    return out
